@@ -1830,21 +1830,7 @@ func (s *shutRun) judgeCause(k int, v *shutView, ccs []shutCC, tc *TapConn) {
 	case "vn":
 		// A long-header packet whose version field was corrupted to zero on the way IS a Version Negotiation packet for the
 		// receiver (they are not authenticated): if such a datagram was delivered to this side, the error is the network's.
-		forged := false
-		for _, rec := range s.w.Log[1-k] {
-			if !rec.Damaged || len(rec.Delivered) == 0 || rec.Delivered[0] > D {
-				continue
-			}
-			for _, f := range rec.Faults {
-				if f.Kind == "corrupt" {
-					for _, p := range rec.Pkts {
-						if p.Type != Tap1RTT && int(f.A) >= p.Off+1 && int(f.A) <= p.Off+4 {
-							forged = true
-						}
-					}
-				}
-			}
-		}
+		forged := wVersionFieldCorrupted(s.w, k, D)
 		if forged {
 			s.res.Probe("version-field-corrupted-into-a-version-negotiation-packet")
 			break
